@@ -2,6 +2,8 @@
 mod backends;
 
 pub use backends::AymPrecise;
+#[cfg(rustzx_verif)]
+pub use backends::VerifRawTick;
 
 use core::fmt::Debug;
 use num_traits::Num;
